@@ -557,3 +557,72 @@ func c09DatagramEndReported(c *Ctx) {
 	}
 	c.Floor(rule, 1, "listener.DummyUDPConn")
 }
+
+// c09HelperWaitsOnExit: a helper goroutine of a connection (ticker, feeder, pump) that is told to stop through a channel
+// waits for that channel in a select. Every other place where it can block inside that loop must be a case of the same
+// select: a plain send (or receive) in the loop body blocks for ever once the other end of that channel has gone – the
+// handler has returned, the exit channel is closed, and the goroutine never looks at it again. One goroutine, its ticker
+// and everything it references then stay behind per past connection.
+func c09HelperWaitsOnExit(c *Ctx) {
+	p := c.P
+	const rule = "helper-waits-on-exit"
+	n := 0
+	for _, fn := range p.FuncsIn("services") {
+		if fn.Blocks == nil || strings.HasPrefix(RelPkg(PkgOf(fn)), "services/ja3") || strings.HasSuffix(p.Fset.Position(fn.Pos()).Filename, "_test.go") {
+			continue
+		}
+		for _, b := range fn.Blocks {
+			for _, in := range b.Instrs {
+				g, ok := in.(*ssa.Go)
+				if !ok {
+					continue
+				}
+				var gf *ssa.Function
+				if mc, isMC := g.Call.Value.(*ssa.MakeClosure); isMC {
+					gf, _ = mc.Fn.(*ssa.Function)
+				} else {
+					gf = g.Call.StaticCallee()
+				}
+				if gf == nil || gf.Blocks == nil || !InRepo(gf) {
+					continue
+				}
+				for _, l := range Loops(gf) {
+					// a blocking select in the loop with a receive case that leaves the goroutine
+					var sel *ssa.Select
+					for lb := range l.Blocks {
+						for _, li := range lb.Instrs {
+							if s, isS := li.(*ssa.Select); isS && s.Blocking {
+								for _, st := range s.States {
+									if st.Dir == types.RecvOnly && !strings.Contains(types.TypeString(st.Chan.Type(), nil), "time.Time") {
+										sel = s
+									}
+								}
+							}
+						}
+					}
+					if sel == nil {
+						continue
+					}
+					n++
+					key := fmt.Sprintf("%s go#%d loop", shortFn(fn), goOrdinal(fn, g))
+					bad := ""
+					for lb := range l.Blocks {
+						for _, li := range lb.Instrs {
+							switch x := li.(type) {
+							case *ssa.Send:
+								bad = "a plain send on " + RenderN(x.Chan, 2) + " at " + p.InstrPos(x)
+							case *ssa.UnOp:
+								if x.Op == token.ARROW && !strings.Contains(types.TypeString(x.X.Type(), nil), "time.Time") {
+									bad = "a plain receive from " + RenderN(x.X, 2) + " at " + p.InstrPos(x)
+								}
+							}
+						}
+					}
+					c.Check(bad == "", rule, key, p.InstrPos(sel), "inside the loop the goroutine blocks only in the select that also watches its exit channel",
+						"the goroutine watches its exit channel in a select, but its loop also contains "+bad+" outside that select: when nothing takes from (or sends to) that channel any more – the connection's frame pusher never started or has ended – the goroutine blocks there for ever and never sees the exit channel; it stays behind with its ticker for every such connection")
+				}
+			}
+		}
+	}
+	c.Floor(rule, 1, "vnc frame feeder")
+}
